@@ -663,3 +663,7 @@ mut("C19", "r7-reset-loop-leaves-early", "updater/resource.go",
     "\t\tfor _, rv := range res.Versions {\n\t\t\trv.CurrentRelease = false\n\t\t}", "\t\tfor _, rv := range res.Versions {\n\t\t\trv.CurrentRelease = false\n\t\t\tif rv.VersionNumber == version {\n\t\t\t\tbreak\n\t\t\t}\n\t\t}", "C19-R7|updater.(*Resource).AddVersion / CurrentRelease set only after all versions were reset", comment="round-2 seed C19-b1")
 mut("C19", "r7-reset-conditional", "updater/resource.go",
     "\t\tfor _, rv := range res.Versions {\n\t\t\trv.CurrentRelease = false\n\t\t}", "\t\tfor _, rv := range res.Versions {\n\t\t\tif rv.Available {\n\t\t\t\trv.CurrentRelease = false\n\t\t\t}\n\t\t}", "C19-R7|updater.(*Resource).AddVersion / CurrentRelease set only after all versions were reset")
+mut("C20", "r4-second-shutdown-returns-early", "log/logging.go",
+    "\tif shutdownFlag.SetToIf(false, true) {\n\t\tclose(shutdownSignal)\n\t}\n\tshutdownWaitGroup.Wait()", "\tif !shutdownFlag.SetToIf(false, true) {\n\t\treturn\n\t}\n\tclose(shutdownSignal)\n\tshutdownWaitGroup.Wait()", "C20-R4|log.Shutdown / waits for the writer", comment="round-2 seed C20-b1")
+mut("C20", "r1-tracer-ignores-global-level", "log/trace.go",
+    "\t\t\t} else {\n\t\t\t\t// no package level set, check against global level\n\t\t\t\tif uint32(TraceLevel) < atomic.LoadUint32(logLevel) {\n\t\t\t\t\treturn ctx, nil\n\t\t\t\t}\n\t\t\t}", "\t\t\t}", "C20-R1|log.AddTracer / tracer creation table", comment="round-2 seed C20-b2")
